@@ -218,6 +218,10 @@ class World(object):
             mod, attr = module.imports[name]
             v = self.resolve_import(it, module, mod, attr)
             return v
+        for sm in getattr(module, 'star_imports', []):
+            tm = self._rel_module(module, sm)
+            if tm is not None and (name in tm.functions or name in tm.classes or name in tm.assigns or name in tm.imports):
+                return self.global_lookup(it, tm, name)
         if name in self.builtins:
             return self.builtins[name]
         if name in EXC_BASES:
@@ -750,6 +754,8 @@ class World(object):
             'functools': NS('functools', {'partial': Builtin('functools.partial', _partial)}, fallback=functools),
             'datetime': NS('datetime', {n: ClassRef('datetime.' + n) for n in ('datetime', 'date', 'time', 'timedelta')}),
             'copy': NS('copy', {}),
+            'operator': NS('operator', {}, fallback=__import__('operator')),
+            'itertools': NS('itertools', {}, fallback=__import__('itertools')),
             'json': NS('json', {}),
         }
         return ext
